@@ -86,6 +86,10 @@ def menu():
     add('rlc-attached-first', lambda a: drop(drop(a, '--load'), '--attach-load') + ['--load=7+2j', '--rlc-load=5,1e-6,', '--attach-load=2,1', '--attach-load=1,3'])
     add('laplace-trap-impedance-order', lambda a: drop(drop(a, '--load'), '--attach-load') + ['--load=7+2j', '--trap-load=2,1e-6,50e-12', '--laplace-load-a=1,2e-9', '--laplace-load-b=10,3e-6',
                                                                                            '--attach-load=3,1', '--attach-load=2,2', '--attach-load=1,3'])
+    # all pulses of an object except its first (junction / ground) pulse, given one by one
+    for tag, ks in ((2, (2, 3, 4)), (1, (2, 3, 4)), (2, (2, 3, 4, 5)), (1, (1, 2, 3)), (3, (2, 3))):
+        add('attach-all-but-first,tag%d,%s' % (tag, ks),
+            lambda a, tag=tag, ks=ks: drop(drop(a, '--load'), '--attach-load') + ['--load=20-150j'] + ['--attach-load=1,%d,%d' % (k, tag) for k in ks])
     add('attach2obj', lambda a: drop(drop(a, '--load'), '--attach-load') + ['--load=7-2j', '--attach-load=1,all,1', '--attach-load=1,all,2'])
     add('attach-mixed', lambda a: drop(drop(a, '--load'), '--attach-load') + ['--load=7-2j', '--attach-load=1,all,2', '--attach-load=1,1,1', '--load=3', '--attach-load=2,2'])
     for v in ('1e6', '5.8e7,1', '3e5,2', '1e5,7'):
